@@ -124,6 +124,7 @@ def check_relation(r, case, par, text, what):
         r.fail("type-set", f"(:types {text}) -> types {got_names}, expected {sorted(names + ['object'])}",
                sorted(names + ["object"]), got_names, tags=case["tags"] + [what])
         return False
+    copy_ = guard(lambda: D.shallow_copy())
     for a in names + ["object"]:
         for b in names + ["object"]:
             want = closure(par, a, b) if a != "object" else b == "object"
@@ -132,6 +133,12 @@ def check_relation(r, case, par, text, what):
             if got is not want:
                 r.fail("subtype", f"(:types {text}): {a} is_sub_type {b} = {got}, expected {want}", want, str(got),
                        tags=case["tags"] + [what])
+                return False
+            # the public copy of the domain carries the same relation
+            got_c = guard(lambda: copy_.types[a].is_sub_type(copy_.types[b]))
+            if got_c is not want:
+                r.fail("subtype", f"(:types {text}): in Domain.shallow_copy(), {a} is_sub_type {b} = {got_c}, expected {want}",
+                       want, str(got_c), tags=case["tags"] + [what, "shallow-copy"])
                 return False
     from pddl_plus_parser.models import create_type_hierarchy_graph
     g = guard(create_type_hierarchy_graph, D.types)
@@ -162,7 +169,11 @@ def check_use_sites(r, case, par, text, what):
         f"(:action nchk_{t} :parameters () :precondition (and (and (forall (?z - {t}) (and (mk ?z))))) :effect (and (r)))\n"
         f"(:action ochk_{t} :parameters () :precondition (and (or (forall (?z - {t}) (and (mk ?z))) (r))) :effect (and (r)))"
         for t in allt)
-    actions = actions + "\n" + twin + "\n" + nested
+    pairfx = "\n".join(
+        f"(:action clr2_{t}_{u} :parameters () :precondition (and) :effect (and "
+        f"(forall (?z - {t}) (when (mk ?z) (not (mk ?z)))) (forall (?w - {u}) (when (mk2 ?w) (not (mk2 ?w))))))"
+        for t in allt for u in allt if t != u)
+    actions = actions + "\n" + twin + "\n" + nested + "\n" + pairfx
     preds += " " + " ".join(f"(t3_{t} ?a - object ?b - object ?c - {t}) (u3_{t} ?a - {t} ?b - object ?c - {t}) "
                             f"(v3_{t} ?a - object ?b - {t} ?c - object)" for t in allt)
     base = f"(:predicates (r) (mk ?x - object) (mk2 ?x - object) {preds})\n(:functions {funcs})\n"
@@ -261,6 +272,22 @@ def check_use_sites(r, case, par, text, what):
                    f"effect left {sorted(nxt.atoms) if not isinstance(nxt, Raised) else nxt}, expected {sorted(want_atoms)}",
                    sorted(want_atoms), str(nxt), tags=case["tags"] + [what, "two-per-type"])
             return
+    # two quantified effects in one action, over every ordered pair of different types: each ranges over its own type
+    ptxt = (f"(define (problem p) (:domain t) (:objects {objs1}) (:init "
+            + " ".join(f"(mk o_{t}) (mk2 o_{t})" for t in allt) + ") (:goal (and)))")
+    prob = parse_problem(ptxt, Dq)
+    for t in allt:
+        for u in allt:
+            if t == u:
+                continue
+            nxt = guard(lambda: observe_state(operator(Dq, f"clr2_{t}_{u}", [], prob.objects).apply(create_initial_state(prob))))
+            r.count("transitions")
+            want_atoms = {("mk", f"o_{x}") for x in allt if not sub(x, t)} | {("mk2", f"o_{x}") for x in allt if not sub(x, u)}
+            if isinstance(nxt, Raised) or set(nxt.atoms) != want_atoms:
+                r.fail("forall-effect-range", f"(:types {text}): forall (?z - {t}) (un-mk) and forall (?w - {u}) (un-mk2) in one "
+                       f"action left {sorted(nxt.atoms) if not isinstance(nxt, Raised) else nxt}, expected {sorted(want_atoms)}",
+                       sorted(want_atoms), str(nxt), tags=case["tags"] + [what, "two-forall-effects"])
+                return
     objs = objs1
     for rho in allt:
         in_range = [t for t in allt if sub(t, rho)]
